@@ -135,3 +135,57 @@ Section PillarSource.
     - reflexivity.
   Qed.
 End PillarSource.
+
+(* liquidity.CancelLiquidityStake of the hand model (Liquidity.v) = the translated source *)
+From ZV Require Import Liquidity.
+Section LiquiditySource.
+  Variable num : bytes -> Z.
+
+  Theorem cancel_liquidity_is_source (e : env) (a : cacct qstore) (s : send) :
+    match cancel_liquidity_validate s with
+    | VErr c =>
+        cancel_liquidity_receive e a s = MErr c /\
+        (c <> 0 -> forall rt amt u g f exp now sv own zts,
+           CancelLiquidityStake_receive rt amt c u g f exp now sv own zts = Ok (nil, c, rt, amt, None))
+    | VPanic => cancel_liquidity_receive e a s = MPanic
+    | VOk id =>
+        match tget (lq_entries (a_store a)) (s_from s ++ id) with
+        | None =>
+            cancel_liquidity_receive e a s = MErr E_nonexistent /\
+            forall rt amt f exp now sv own zts,
+              CancelLiquidityStake_receive rt amt 0 0 Err_constants_ErrDataNonExistent f exp now sv own zts =
+              Ok (nil, Err_constants_ErrDataNonExistent, rt, amt, None)
+        | Some ent =>
+            let src := CancelLiquidityStake_receive (ls_revoke ent) (ls_amount ent) 0 0 0 0 (ls_exp ent) (e_now e) 0
+                         (num (s_from s)) (num (ls_zts ent)) in
+            if e_now e <? ls_exp ent then
+              cancel_liquidity_receive e a s = MErr E_revoke_not_due /\
+              src = Ok (nil, Err_constants_RevokeNotDue, ls_revoke ent, ls_amount ent, None)
+            else
+              exists a',
+                cancel_liquidity_receive e a s =
+                  MOk a' [{| d_to := s_from s; d_amount := ls_amount ent; d_zts := ls_zts ent; d_data := [] |}] /\
+                src = Ok ([(num (s_from s), ls_amount ent, num (ls_zts ent))], 0, e_now e, 0, Some 1) /\
+                (exists ent', tget (lq_entries (a_store a')) (s_from s ++ id) = Some ent' /\
+                   ls_amount ent' = 0 /\ ls_revoke ent' = e_now e /\ ls_exp ent' = ls_exp ent /\ ls_zts ent' = ls_zts ent)
+        end
+    end.
+  Proof.
+    unfold cancel_liquidity_receive.
+    destruct (cancel_liquidity_validate s) as [id|c|].
+    - cbv zeta. destruct (tget (lq_entries (a_store a)) (s_from s ++ id)) as [ent|].
+      + unfold CancelLiquidityStake_receive. cbv zeta. change (0 =? 0) with true. cbn [negb guard].
+        assert (Hne : (0 =? Err_constants_ErrDataNonExistent) = false) by reflexivity. rewrite Hne.
+        destruct (e_now e <? ls_exp ent) eqn:Ed.
+        * split; reflexivity.
+        * eexists. split; [reflexivity|]. split; [reflexivity|].
+          eexists. split; [cbn [a_store with_store set_entries lq_entries]; rewrite tget_tput, bytes_eqb_refl; reflexivity|].
+          cbn. repeat split; reflexivity.
+      + split; [reflexivity|]. intros rt amt f exp now sv own zts.
+        unfold CancelLiquidityStake_receive. cbv zeta. change (0 =? 0) with true. cbn [negb guard].
+        rewrite Z.eqb_refl. reflexivity.
+    - split; [reflexivity|]. intros Hc rt amt u g f exp now sv own zts.
+      unfold CancelLiquidityStake_receive. cbv zeta. assert ((c =? 0) = false) as -> by lia. reflexivity.
+    - reflexivity.
+  Qed.
+End LiquiditySource.
